@@ -110,6 +110,10 @@ func verifyMatchRule(ruleData map[string]string,
 		dstArtifacts = dstLink.Products
 	}
 
+	// The destination artifacts belong to the link metadata of the caller,
+	// paths are cleaned up in a copy
+	dstArtifacts = cleanArtifactPaths(dstArtifacts)
+
 	// cleanup paths in pattern and artifact maps
 	if ruleData["pattern"] != "" {
 		ruleData["pattern"] = path.Clean(ruleData["pattern"])
@@ -178,6 +182,16 @@ func verifyMatchRule(ruleData map[string]string,
 	return consumed
 }
 
+// cleanArtifactPaths returns a copy of the passed artifacts, in which all paths
+// are cleaned up.
+func cleanArtifactPaths(artifacts map[string]HashObj) map[string]HashObj {
+	cleaned := make(map[string]HashObj, len(artifacts))
+	for artifactPath, hashes := range artifacts {
+		cleaned[path.Clean(artifactPath)] = hashes
+	}
+	return cleaned
+}
+
 /*
 VerifyArtifacts iteratively applies the material and product rules of the
 passed items (step or inspection) to enforce and authorize artifacts (materials
@@ -237,6 +251,11 @@ func VerifyArtifacts(items []interface{},
 		}
 		materials := link.Materials
 		products := link.Products
+
+		// Rules are evaluated on cleaned up paths. Clean them in copies, the
+		// link metadata of the caller must not be modified.
+		materials = cleanArtifactPaths(materials)
+		products = cleanArtifactPaths(products)
 
 		// All other rules only require the material or product paths (without
 		// hashes). We extract them from the corresponding maps and store them as
